@@ -45,9 +45,13 @@ def judge(run, trace_module, adapter, fn, items, sig, corrupt, what, nontrivial=
             if c is not None:
                 canary = c
                 break
-    if canary is None:
+    if canary is None and not bad:
         raise Machinery("no trace available for the canary (%s)" % trace_module)
-    cbad, _ = monitor.judge(trace_module, [canary], run.work + "/canary_" + trace_module, jvms=1)
+    if canary is None:
+        # every candidate trace was rejected: the rejections show the binding is alive and must be reported as violations
+        cbad = [(0, 0, "skipped: no accepted trace left to corrupt (%d rejected)" % len(bad))]
+    else:
+        cbad, _ = monitor.judge(trace_module, [canary], run.work + "/canary_" + trace_module, jvms=1)
     if not cbad:
         raise Machinery("canary: corrupted observation accepted by %s - the binding is broken" % trace_module)
     nt = set()
